@@ -95,18 +95,67 @@ theorem drawDown_spec (gap : Int) (wants : Bool) (cursor : Nat) (H : Int) (hs : 
       · exact ⟨hc', hh'⟩
       · exact hrec
 
-/-! ### insertChildren (gap 0) -/
+/-! ### the start of Draw: walking the top back to an existing widget -/
 
 theorem usub_one {top : Nat} (h0 : top ≠ 0) (hU : top < U) : usub top 1 = top - 1 := by
   unfold usub U at *
   omega
 
-theorem insertLoop_spec (stops : Bool) (hs : List Nat) : ∀ (fuel top : Nat) (ah : Int) (acc : List Child),
-    top < U → Contig 0 acc → Heights hs acc →
+theorem builder_none {hs : List Nat} {i : Nat} : builder hs i = none ↔ hs.length ≤ i := by
+  unfold builder; exact List.getElem?_eq_none_iff
+
+theorem clampLoop_spec (hs : List Nat) : ∀ (fuel top : Nat) (off : Int), top ≤ fuel → top < U →
+    (clampLoop hs fuel top off).1 ≤ top ∧
+    ((clampLoop hs fuel top off).1 = 0 ∨ (clampLoop hs fuel top off).1 < hs.length) ∧
+    ((top = 0 ∨ top < hs.length) → clampLoop hs fuel top off = (top, off)) := by
+  intro fuel
+  induction fuel with
+  | zero =>
+    intro top off h _
+    have : top = 0 := by omega
+    subst this
+    exact ⟨Nat.le_refl _, Or.inl rfl, fun _ => rfl⟩
+  | succ fuel ih =>
+    intro top off hf hU
+    simp only [clampLoop]
+    split
+    · rename_i hc
+      have h0 : top ≠ 0 := by omega
+      have hu := usub_one h0 hU
+      have hn := builder_none.mp hc.2
+      obtain ⟨r1, r2, _⟩ := ih (usub top 1) 0 (by rw [hu]; omega) (by rw [hu]; omega)
+      rw [hu] at r1 r2 ⊢
+      exact ⟨by omega, r2, fun h => by omega⟩
+    · rename_i hc
+      refine ⟨Nat.le_refl _, ?_, fun _ => rfl⟩
+      by_cases h0 : top = 0
+      · exact Or.inl h0
+      · right
+        have : ¬ builder hs top = none := fun h => hc ⟨by omega, h⟩
+        rw [builder_none] at this
+        omega
+
+/-- The repaired start of `Draw`: afterwards the top index is 0 or refers to an existing widget; a
+    top index that already did is left alone (with its offset). -/
+theorem clampTop_spec (hs : List Nat) (s : St) (hU : s.top < U) :
+    (clampTop true hs s).top ≤ s.top ∧
+    ((clampTop true hs s).top = 0 ∨ (clampTop true hs s).top < hs.length) ∧
+    (clampTop true hs s).cursor = s.cursor ∧ (clampTop true hs s).wantsCursor = s.wantsCursor ∧
+    (clampTop true hs s).pending = s.pending ∧
+    ((s.top = 0 ∨ s.top < hs.length) → clampTop true hs s = s) := by
+  obtain ⟨r1, r2, r3⟩ := clampLoop_spec hs s.top s.top s.offset (Nat.le_refl _) hU
+  unfold clampTop
+  rw [if_pos rfl]
+  exact ⟨r1, r2, rfl, rfl, rfl, fun h => by rw [r3 h]⟩
+
+/-! ### insertChildren -/
+
+theorem insertLoop_spec (stops : Bool) (g : Int) (hs : List Nat) : ∀ (fuel top : Nat) (ah : Int) (acc : List Child),
+    top < U → Contig g acc → Heights hs acc →
     (∀ f, acc.head? = some f → f.idx = top + 1 ∧ f.row = ah) →
-    Contig 0 (insertLoop stops hs fuel top ah acc).2.2 ∧ Heights hs (insertLoop stops hs fuel top ah acc).2.2 ∧
-    (∀ l, (insertLoop stops hs fuel top ah acc).2.2.getLast? = some l →
-        acc.getLast? = some l ∨ (acc = [] ∧ l.idx = top ∧ l.row + (l.height : Int) = ah)) := by
+    Contig g (insertLoop stops g hs fuel top ah acc).2.2 ∧ Heights hs (insertLoop stops g hs fuel top ah acc).2.2 ∧
+    (∀ l, (insertLoop stops g hs fuel top ah acc).2.2.getLast? = some l →
+        acc.getLast? = some l ∨ (acc = [] ∧ l.idx = top ∧ l.row + (l.height : Int) + g = ah)) := by
   intro fuel
   induction fuel with
   | zero => intro top ah acc _ hc hh _; exact ⟨hc, hh, fun l hl => Or.inl hl⟩
@@ -119,31 +168,31 @@ theorem insertLoop_spec (stops : Bool) (hs : List Nat) : ∀ (fuel top : Nat) (a
       | none => exact ⟨hc, hh, fun l hl => Or.inl hl⟩
       | some h =>
         simp only []
-        have hc' : Contig 0 ({ idx := top, row := ah - (h : Int), height := h } :: acc) :=
+        have hc' : Contig g ({ idx := top, row := ah - ((h : Int) + g), height := h } :: acc) :=
           contig_cons hc (fun f hfh => by
             obtain ⟨h1, h2⟩ := hf f hfh
-            exact ⟨h1, by show f.row = ah - (h : Int) + (h : Int) + 0; omega⟩)
-        have hh' : Heights hs ({ idx := top, row := ah - (h : Int), height := h } :: acc) := by
+            exact ⟨h1, by show f.row = ah - ((h : Int) + g) + (h : Int) + g; omega⟩)
+        have hh' : Heights hs ({ idx := top, row := ah - ((h : Int) + g), height := h } :: acc) := by
           intro c hcm
           simp only [List.mem_cons] at hcm
           rcases hcm with rfl | hcm
           · exact hb
           · exact hh c hcm
-        have hlast : ∀ l, ({ idx := top, row := ah - (h : Int), height := h : Child } :: acc).getLast? = some l →
-            acc.getLast? = some l ∨ (acc = [] ∧ l.idx = top ∧ l.row + (l.height : Int) = ah) := by
+        have hlast : ∀ l, ({ idx := top, row := ah - ((h : Int) + g), height := h : Child } :: acc).getLast? = some l →
+            acc.getLast? = some l ∨ (acc = [] ∧ l.idx = top ∧ l.row + (l.height : Int) + g = ah) := by
           intro l hl
           cases acc with
           | nil =>
             simp only [List.getLast?_singleton, Option.some.injEq] at hl
             subst hl
-            exact Or.inr ⟨rfl, rfl, by show ah - (h : Int) + (h : Int) = ah; omega⟩
+            exact Or.inr ⟨rfl, rfl, by show ah - ((h : Int) + g) + (h : Int) + g = ah; omega⟩
           | cons a rest => exact Or.inl (by simpa [List.getLast?_cons_cons] using hl)
         split
         · exact ⟨hc', hh', hlast⟩
         · rename_i h0'
           have h0 : top ≠ 0 := fun h => h0' (Or.inl h)
           have hu := usub_one h0 hU
-          have hrec := ih (usub top 1) (ah - (h : Int)) _ (by rw [hu]; omega) hc' hh'
+          have hrec := ih (usub top 1) (ah - ((h : Int) + g)) _ (by rw [hu]; omega) hc' hh'
             (fun f hfh => by
               simp only [List.head?_cons, Option.some.injEq] at hfh
               subst hfh
@@ -154,25 +203,25 @@ theorem insertLoop_spec (stops : Bool) (hs : List Nat) : ∀ (fuel top : Nat) (a
           · cases h1
     · exact ⟨hc, hh, fun l hl => Or.inl hl⟩
 
-theorem restack_contig : ∀ (cs : List Child) (r : Int), Contig 0 cs → Contig 0 (restack r cs)
+theorem restack_contig (g : Int) : ∀ (cs : List Child) (r : Int), Contig g cs → Contig g (restack g r cs)
   | [], _, _ => trivial
   | [_], _, _ => trivial
   | a :: b :: rest, r, h => by
-    have := restack_contig (b :: rest) (r + (a.height : Int)) h.2
+    have := restack_contig g (b :: rest) (r + ((a.height : Int) + g)) h.2
     simp only [restack] at this ⊢
-    exact ⟨⟨h.1.1, by show r + (a.height : Int) = r + (a.height : Int) + 0; omega⟩, this⟩
+    exact ⟨⟨h.1.1, by show r + ((a.height : Int) + g) = r + (a.height : Int) + g; omega⟩, this⟩
 
-theorem restack_mem : ∀ (cs : List Child) (r : Int) (x : Child), x ∈ restack r cs →
+theorem restack_mem (g : Int) : ∀ (cs : List Child) (r : Int) (x : Child), x ∈ restack g r cs →
     ∃ c ∈ cs, x.idx = c.idx ∧ x.height = c.height
   | [], _, x, h => by cases h
   | c :: cs, r, x, h => by
     simp only [restack, List.mem_cons] at h
     rcases h with rfl | h
     · exact ⟨c, List.mem_cons_self, rfl, rfl⟩
-    · obtain ⟨c', hc', e⟩ := restack_mem cs _ x h
+    · obtain ⟨c', hc', e⟩ := restack_mem g cs _ x h
       exact ⟨c', List.mem_cons_of_mem _ hc', e⟩
 
-theorem restack_getLast : ∀ (cs : List Child) (r : Int) (l : Child), (restack r cs).getLast? = some l →
+theorem restack_getLast (g : Int) : ∀ (cs : List Child) (r : Int) (l : Child), (restack g r cs).getLast? = some l →
     ∃ l0, cs.getLast? = some l0 ∧ l.idx = l0.idx
   | [], _, l, h => by simp [restack] at h
   | [c], r, l, h => by
@@ -181,26 +230,26 @@ theorem restack_getLast : ∀ (cs : List Child) (r : Int) (l : Child), (restack 
     exact ⟨c, rfl, rfl⟩
   | a :: b :: rest, r, l, h => by
     simp only [restack, List.getLast?_cons_cons] at h
-    have := restack_getLast (b :: rest) (r + (a.height : Int)) l (by simpa [restack] using h)
+    have := restack_getLast g (b :: rest) (r + ((a.height : Int) + g)) l (by simpa [restack] using h)
     simpa [List.getLast?_cons_cons] using this
 
-/-- After `insertChildren` (gap 0): the inserted children are contiguous, have the builder's
-    heights, and the last one is the item just above the old top. -/
-theorem insertChildren_spec (stops : Bool) (hs : List Nat) (top : Nat) (ah : Int) (h0 : top ≠ 0) (hU : top < U) :
-    Contig 0 (insertChildren stops hs top ah).2.2 ∧ Heights hs (insertChildren stops hs top ah).2.2 ∧
-    ∀ l, (insertChildren stops hs top ah).2.2.getLast? = some l → l.idx + 1 = top := by
+/-- After `insertChildren`: the inserted children are contiguous (with the gap `g` the function
+    counts), have the builder's heights, and the last one is the item just above the old top. -/
+theorem insertChildren_spec (stops : Bool) (g : Int) (hs : List Nat) (top : Nat) (ah : Int) (h0 : top ≠ 0) (hU : top < U) :
+    Contig g (insertChildren stops g hs top ah).2.2 ∧ Heights hs (insertChildren stops g hs top ah).2.2 ∧
+    ∀ l, (insertChildren stops g hs top ah).2.2.getLast? = some l → l.idx + 1 = top := by
   have hu := usub_one h0 hU
-  have sp := insertLoop_spec stops hs top (usub top 1) ah [] (by rw [hu]; omega) trivial
+  have sp := insertLoop_spec stops g hs top (usub top 1) ah [] (by rw [hu]; omega) trivial
     (by intro c hc; cases hc) (by intro f hf; cases hf)
   unfold insertChildren
   simp only []
   split
-  · refine ⟨restack_contig _ _ sp.1, ?_, ?_⟩
+  · refine ⟨restack_contig g _ _ sp.1, ?_, ?_⟩
     · intro x hx
-      obtain ⟨c, hc, e1, e2⟩ := restack_mem _ _ x hx
+      obtain ⟨c, hc, e1, e2⟩ := restack_mem g _ _ x hx
       rw [e1, e2]; exact sp.2.1 c hc
     · intro l hl
-      obtain ⟨l0, hl0, e⟩ := restack_getLast _ _ l hl
+      obtain ⟨l0, hl0, e⟩ := restack_getLast g _ _ l hl
       rcases sp.2.2 l0 hl0 with h1 | ⟨_, h2, _⟩
       · cases h1
       · rw [e, h2, hu]; omega
@@ -226,15 +275,15 @@ theorem prologue_spec (s : St) :
     · intro h0; exact hn ⟨h, h0⟩
     · exact h
 
-theorem scrollUp_spec (stops : Bool) (hs : List Nat) (s1 : St) (ah1 ah2 : Int) (s2 : St) (cs0 : List Child)
-    (he : scrollUp stops hs s1 ah1 = .ok (ah2, s2, cs0)) (hU : s1.top < U) (h0 : ah1 > 0 → s1.top ≠ 0) :
-    Contig 0 cs0 ∧ Heights hs cs0 ∧
-    (∀ l, cs0.getLast? = some l → l.idx + 1 = s1.top ∧ l.row + (l.height : Int) = ah2) ∧
+theorem scrollUp_spec (stops : Bool) (g : Int) (hs : List Nat) (s1 : St) (ah1 ah2 : Int) (s2 : St) (cs0 : List Child)
+    (he : scrollUp stops g hs s1 ah1 = .ok (ah2, s2, cs0)) (hU : s1.top < U) (h0 : ah1 > 0 → s1.top ≠ 0) :
+    Contig g cs0 ∧ Heights hs cs0 ∧
+    (∀ l, cs0.getLast? = some l → l.idx + 1 = s1.top ∧ l.row + (l.height : Int) + g = ah2) ∧
     (¬ ah1 > 0 → cs0 = []) ∧ s2.cursor = s1.cursor ∧ s2.wantsCursor = s1.wantsCursor := by
   unfold scrollUp at he
   split at he
   · rename_i hpos
-    have sp := insertChildren_spec stops hs s1.top ah1 (h0 hpos) hU
+    have sp := insertChildren_spec stops g hs s1.top ah1 (h0 hpos) hU
     simp only [] at he
     split at he
     · cases he
@@ -249,8 +298,8 @@ theorem scrollUp_spec (stops : Bool) (hs : List Nat) (s1 : St) (ah1 ah2 : Int) (
     cases he
     exact ⟨trivial, by simp [Heights], by simp, fun _ => rfl, rfl, rfl⟩
 
-theorem reveal_spec {gap : Int} {hs : List Nat} (cs : List Child) (s : St) (H : Nat) (cs2 : List Child) (s3 : St)
-    (he : reveal cs s H = .ok (cs2, s3)) (hc : Contig gap cs) (hh : Heights hs cs) :
+theorem reveal_spec {gap : Int} {hs : List Nat} (above : Bool) (cs : List Child) (s : St) (H : Nat) (cs2 : List Child) (s3 : St)
+    (he : reveal above cs s H = .ok (cs2, s3)) (hc : Contig gap cs) (hh : Heights hs cs) :
     Contig gap cs2 ∧ Heights hs cs2 := by
   unfold reveal at he
   split at he
@@ -260,52 +309,46 @@ theorem reveal_spec {gap : Int} {hs : List Nat} (cs : List Child) (s : St) (H : 
       cases he
       split
       · exact ⟨contig_shift _ hc, heights_shift _ hh⟩
-      · exact ⟨hc, hh⟩
+      · split
+        · exact ⟨contig_shift _ hc, heights_shift _ hh⟩
+        · exact ⟨hc, hh⟩
     · cases he; exact ⟨hc, hh⟩
   · cases he; exact ⟨hc, hh⟩
 
-/-- Children returned by one `Draw`, from any state: in index order, contiguous with the gap, each
-    with its builder height — provided the gap is 0 or this draw does not scroll upward. -/
+/-- Children returned by one `Draw`, from any state, for ANY gap: in index order, contiguous with the
+    gap, each with its builder height — provided the upward-scroll code counts the gap (repair F119c
+    present) or the gap is 0. -/
 theorem draw_layout (guard : Facts) (cfg : Cfg) (hs : List Nat) (s : St) (W H : Nat)
-    (hU : s.top < U)
-    (hg : cfg.gap = 0 ∨ ¬ (0 < - (s.offset + s.pending) ∧ s.top ≠ 0))
+    (hU : s.top < U) (hC : guard.clampTop = true)
+    (hg : guard.gapAbove = true ∨ cfg.gap = 0)
     (s' : St) (cs : List Child) (he : draw guard cfg hs s W H = .ok (s', cs)) :
     Contig cfg.gap cs ∧ Heights hs cs := by
+  have hgg : (if guard.gapAbove = true then cfg.gap else 0) = cfg.gap := by
+    rcases hg with h | h
+    · rw [if_pos h]
+    · split
+      · rfl
+      · exact h.symm
   unfold draw at he
   split at he
   · cases he
-  · obtain ⟨p1, p2, p3, p4⟩ := prologue_spec s
-    simp only [] at he
+  · rw [hC] at he
+    obtain ⟨k1, _, _, _, _, _⟩ := clampTop_spec hs s hU
+    obtain ⟨p1, p2, p3, p4⟩ := prologue_spec (clampTop true hs s)
+    simp only [hgg] at he
     split at he
     · cases he
     · rename_i ah2 s2 cs0 hsu
-      have sp := scrollUp_spec _ hs _ _ ah2 s2 cs0 hsu (by rw [p1]; exact hU) (fun h => by rw [p1]; exact (p4 h).1)
+      have sp := scrollUp_spec _ cfg.gap hs _ _ ah2 s2 cs0 hsu (by rw [p1]; omega) (fun h => by rw [p1]; exact (p4 h).1)
       obtain ⟨c0, h0, l0, e0, _, _⟩ := sp
-      -- the inserted children are contiguous for the configured gap
-      have hgap : cs0 = [] ∨ cfg.gap = 0 := by
-        by_cases hpos : (prologue s).1 > 0
-        · right
-          rcases hg with hg | hg
-          · exact hg
-          · exact absurd ⟨(p4 hpos).2, (p4 hpos).1⟩ hg
-        · left; exact e0 hpos
-      have c0' : Contig cfg.gap cs0 := by
-        rcases hgap with h | h
-        · rw [h]; trivial
-        · rw [h]; exact c0
-      have dd := drawDown_spec cfg.gap s2.wantsCursor s2.cursor H hs _ (prologue s).2.top ah2 cs0 rfl c0' h0
-        (fun l hl => by
-          obtain ⟨a, b⟩ := l0 l hl
-          rcases hgap with h | h
-          · rw [h] at hl; cases hl
-          · rw [h]; exact ⟨a, by omega⟩)
+      have dd := drawDown_spec cfg.gap s2.wantsCursor s2.cursor H hs _ (prologue (clampTop true hs s)).2.top ah2 cs0 rfl c0 h0 l0
       split at he
       · cases he
       · split at he
         · cases he
         · rename_i cs2 s3 hrev
           cases he
-          exact reveal_spec _ _ _ _ _ hrev dd.1 dd.2
+          exact reveal_spec _ _ _ _ _ _ hrev dd.1 dd.2
 
 /-! ### an empty list never panics -/
 
@@ -324,9 +367,16 @@ theorem draw_empty (guard : Facts) (cfg : Cfg) (s : St) (W H : Nat) (hi : EmptyI
     (hW : W ≠ 65535) (hH : H ≠ 65535) :
     ∃ s', draw guard cfg [] s W H = .ok (s', []) ∧ EmptyInv s' := by
   obtain ⟨ht, hc⟩ := hi
+  have hcl : clampTop guard.clampTop [] s = s := by
+    unfold clampTop
+    split
+    · rw [ht]; simp only [clampLoop]
+      cases s; simp_all
+    · rfl
   obtain ⟨p1, p2, p3, p4⟩ := prologue_spec s
   have hah : ¬ (prologue s).1 > 0 := fun h => (p4 h).1 ht
   unfold draw
+  rw [hcl]
   have hb : ¬ (H = 65535 ∨ W = 65535) := by omega
   simp only [hb, if_false, scrollUp, hah, List.drop_nil, drawDown, gutter, reveal]
   have hcc : cursorChild [] (prologue s).2.cursor (prologue s).2.top = .ok none := by
@@ -441,6 +491,25 @@ theorem contig_get {gap : Int} (hg : 0 ≤ gap) : ∀ (cs : List Child) (f : Chi
       · rw [i2 hk]; omega
       · have := i3 (by omega); omega
 
+theorem contig_get_idx {gap : Int} : ∀ (cs : List Child) (f : Child), Contig gap (f :: cs) →
+    ∀ (m : Nat) (c : Child), (f :: cs)[m]? = some c → c.idx = f.idx + m := by
+  intro cs
+  induction cs with
+  | nil =>
+    intro f _ m c hm
+    cases m with
+    | zero => simp at hm; subst hm; rfl
+    | succ k => simp at hm
+  | cons d rest ih =>
+    intro f hc m c hm
+    cases m with
+    | zero => simp at hm; subst hm; rfl
+    | succ k =>
+      have hm' : (d :: rest)[k]? = some c := by simpa using hm
+      have i1 := ih d hc.2 k c hm'
+      have l1 := hc.1.1
+      omega
+
 theorem usub_le {cursor top : Nat} (h1 : top ≤ cursor) (h2 : cursor < 2 ^ 63) :
     usub cursor top = cursor - top := by
   unfold usub U; omega
@@ -469,132 +538,27 @@ def Visible (H : Nat) (c : Child) : Prop :=
   c.row < (H : Int) ∧ 0 < c.row + (c.height : Int) ∧
     (c.height ≤ H → 0 ≤ c.row ∧ c.row + (c.height : Int) ≤ H)
 
+/-- The repaired wants-cursor block shows the cursored child whatever its row was: below the
+    viewport → its bottom is brought to the last row; above → its top to row 0. -/
 theorem reveal_visible (cs : List Child) (s : St) (H : Nat) (c : Child)
-    (hH : 1 ≤ H) (hh : 1 ≤ c.height)
-    (hcc : cursorChild cs s.cursor s.top = .ok (some c)) (hmem : c ∈ cs)
-    (hrow : 0 ≤ c.row) (hnow : s.wantsCursor = false → c.row = 0) :
-    ∃ cs2 s3, reveal cs s H = .ok (cs2, s3) ∧ ∃ c' ∈ cs2, c'.idx = c.idx ∧ c'.height = c.height ∧ Visible H c' := by
-  by_cases hw : s.wantsCursor = true
-  · by_cases hb : c.row + (c.height : Int) > H
-    · refine ⟨cs.map fun x => { x with row := x.row + ((H : Int) - (c.row + (c.height : Int))) },
-        { s with wantsCursor := false }, ?_,
-        { c with row := c.row + ((H : Int) - (c.row + (c.height : Int))) }, ?_, rfl, rfl, ?_⟩
-      · unfold reveal; rw [if_pos hw, hcc]; simp only [hb, if_true]
+    (hH : 1 ≤ H) (hh : 1 ≤ c.height) (hw : s.wantsCursor = true)
+    (hcc : cursorChild cs s.cursor s.top = .ok (some c)) (hmem : c ∈ cs) :
+    ∃ cs2 s3, reveal true cs s H = .ok (cs2, s3) ∧ ∃ c' ∈ cs2, c'.idx = c.idx ∧ c'.height = c.height ∧ Visible H c' := by
+  by_cases hb : c.row + (c.height : Int) > H
+  · refine ⟨cs.map fun x => { x with row := x.row + ((H : Int) - (c.row + (c.height : Int))) },
+      { s with wantsCursor := false }, ?_,
+      { c with row := c.row + ((H : Int) - (c.row + (c.height : Int))) }, ?_, rfl, rfl, ?_⟩
+    · unfold reveal; rw [if_pos hw, hcc]; simp only [hb, if_true]
+    · simp only [List.mem_map]; exact ⟨c, hmem, rfl⟩
+    · unfold Visible; simp only []; omega
+  · by_cases hr : c.row < 0
+    · refine ⟨cs.map fun x => { x with row := x.row + (- c.row) },
+        { s with wantsCursor := false }, ?_, { c with row := c.row + (- c.row) }, ?_, rfl, rfl, ?_⟩
+      · unfold reveal; rw [if_pos hw, hcc]; simp only [hb, if_false, hr, and_self, if_true]
       · simp only [List.mem_map]; exact ⟨c, hmem, rfl⟩
       · unfold Visible; simp only []; omega
     · refine ⟨cs, { s with wantsCursor := false }, ?_, c, hmem, rfl, rfl, ?_⟩
-      · unfold reveal; rw [if_pos hw, hcc]; simp only [hb, if_false]
+      · unfold reveal; rw [if_pos hw, hcc]; simp only [hb, if_false, hr, and_false]
       · unfold Visible; omega
-  · have hw' : s.wantsCursor = false := by simpa using hw
-    refine ⟨cs, s, ?_, c, hmem, rfl, rfl, ?_⟩
-    · unfold reveal; rw [if_neg hw]
-    · have := hnow hw'
-      unfold Visible; omega
-
-/-- **One draw after a selection change shows the selection.**  State hypotheses = what
-    `ensureScroll` leaves behind on a top-aligned scroll state with no pending scroll: either the top
-    is the cursor with offset 0, or the cursor is below the top, the wants-cursor flag is set and the
-    offset lies within the top item. -/
-theorem draw_cursor_visible (st : Bool) (cfg : Cfg) (hs : List Nat) (s : St) (W H : Nat) (hc : Nat)
-    (hgap : 0 ≤ cfg.gap) (hW : W ≠ 65535) (hH : H ≠ 65535) (hH1 : 1 ≤ H)
-    (hp : s.pending = 0) (hoff : 0 ≤ s.offset)
-    (htc : s.top ≤ s.cursor) (hcur : hs[s.cursor]? = some hc) (hc1 : 1 ≤ hc) (hc63 : s.cursor < 2 ^ 63)
-    (hA : s.cursor = s.top → s.offset = 0)
-    (hB : s.top < s.cursor → s.wantsCursor = true ∧ ∃ ht, hs[s.top]? = some ht ∧ s.offset ≤ (ht : Int)) :
-    ∃ s' cs, draw ⟨true, st⟩ cfg hs s W H = .ok (s', cs) ∧
-      ∃ c ∈ cs, c.idx = s.cursor ∧ c.height = hc ∧ Visible H c := by
-  have hb : ¬ (H = 65535 ∨ W = 65535) := fun h => h.elim hH hW
-  have hah : ¬ (- s.offset > 0) := by clear hB hA; omega
-  -- prologue: nothing pending, offset ≥ 0 ⇒ no upward scroll
-  have hpro : prologue s = (- s.offset, { s with pending := 0 }) := by
-    unfold prologue
-    have h' : ¬ (- s.offset > 0 ∧ s.top = 0) := by omega
-    simp only [hp, Int.add_zero, h', if_false]
-  have hn : s.cursor < hs.length := by
-    exact getElem?_lt hcur
-  -- the children drawn downward from the top
-  obtain ⟨cs1, hcs1⟩ : ∃ x, x = drawDown cfg.gap s.wantsCursor s.cursor H (hs.drop s.top) s.top (- s.offset) [] := ⟨_, rfl⟩
-  have hsp := drawDown_spec cfg.gap s.wantsCursor s.cursor H hs (hs.drop s.top) s.top (- s.offset) [] rfl
-    trivial (by simp [Heights]) (by simp)
-  rw [← hcs1] at hsp
-  -- the first child is the top item at row −offset
-  obtain ⟨htop, hdrop⟩ : ∃ ht, hs.drop s.top = ht :: hs.drop (s.top + 1) := by
-    have : s.top < hs.length := by omega
-    exact ⟨hs[s.top], by rw [List.drop_eq_getElem_cons this]⟩
-  obtain ⟨tail, htail⟩ : ∃ tail, cs1 = { idx := s.top, row := - s.offset, height := htop } :: tail := by
-    rw [hcs1, hdrop]
-    obtain ⟨t, ht⟩ := drawDown_prefix cfg.gap s.wantsCursor s.cursor H (hs.drop (s.top + 1)) (s.top + 1)
-      (- s.offset + (htop : Int) + cfg.gap) ([] ++ [{ idx := s.top, row := - s.offset, height := htop }])
-    simp only [drawDown]
-    split
-    · exact ⟨t, by rw [ht]; simp⟩
-    · split
-      · exact ⟨[], rfl⟩
-      · exact ⟨t, by rw [ht]; simp⟩
-  -- the cursor child is among them
-  have hlen : s.cursor - s.top < cs1.length := by
-    by_cases he : s.cursor = s.top
-    · rw [htail]; simp [he]
-    · have hw := (hB (by omega)).1
-      have := drawDown_reaches cfg.gap s.cursor H (hs.drop s.top) s.top (- s.offset) []
-      rw [hcs1, hw]
-      simp only [List.length_nil, List.length_drop, Nat.zero_add] at this
-      omega
-  obtain ⟨c, hcget⟩ : ∃ c, cs1[s.cursor - s.top]? = some c := ⟨cs1[s.cursor - s.top], by simp [hlen]⟩
-  have hcmem : c ∈ cs1 := List.mem_of_getElem? hcget
-  have hcg := contig_get hgap tail _ (by rw [← htail]; exact hsp.1) (s.cursor - s.top) c (by rw [← htail]; exact hcget)
-  have hidx : c.idx = s.cursor := by have := hcg.1; simp only [] at this; omega
-  have hheight : c.height = hc := by
-    have := hsp.2 c hcmem
-    rw [hidx, hcur] at this
-    exact (Option.some.inj this).symm
-  have hrow : 0 ≤ c.row := by
-    by_cases he : s.cursor = s.top
-    · have := hcg.2.1 (by omega); rw [this]; simp only []; have := hA he; omega
-    · obtain ⟨_, ht, hht, hle⟩ := hB (by omega)
-      have e : htop = ht := by
-        have h1 : hs[s.top]? = some htop := (drop_cons_getElem? hdrop).1
-        rw [hht] at h1; exact (Option.some.inj h1).symm
-      have := hcg.2.2 (by omega)
-      simp only [] at this
-      omega
-  have hnow : s.wantsCursor = false → c.row = 0 := by
-    intro hw
-    by_cases he : s.cursor = s.top
-    · have := hcg.2.1 (by omega); rw [this]; simp only []; have := hA he; omega
-    · have := (hB (by omega)).1; rw [hw] at this; cases this
-  have hcc : cursorChild cs1 s.cursor s.top = .ok (some c) := cursorChild_hit cs1 _ _ c htc hc63 hcget
-  obtain ⟨cs2, s3, hrev, c', hc'mem, hc'idx, hc'h, hvis⟩ :=
-    reveal_visible cs1 { s with pending := 0 } H c hH1 (by omega) hcc hcmem hrow hnow
-  refine ⟨{ s3 with top := (retop cs2 0 (s3.top, s3.offset)).1, offset := (retop cs2 0 (s3.top, s3.offset)).2 },
-    cs2, ?_, c', hc'mem, hc'idx.trans hidx, hc'h.trans hheight, hvis⟩
-  unfold draw
-  simp only [hb, if_false, hpro, scrollUp, hah, gutter]
-  rw [← hcs1, hcc]
-  simp only [ite_self]
-  rw [hrev]
-
-/-- A settled scroll state: nothing pending and the line offset lies within the top item (what a
-    `Draw` leaves behind when some item covers row 0). -/
-def Settled (hs : List Nat) (s : St) : Prop :=
-  s.pending = 0 ∧ 0 ≤ s.offset ∧ ∃ ht, hs[s.top]? = some ht ∧ s.offset ≤ (ht : Int)
-
-/-- After `ensureScroll` on a settled state with the cursor moved to an existing item, one `Draw`
-    shows that item. -/
-theorem ensureScroll_draw_visible (st : Bool) (cfg : Cfg) (hs : List Nat) (s : St) (c W H hc : Nat)
-    (hgap : 0 ≤ cfg.gap) (hW : W ≠ 65535) (hH : H ≠ 65535) (hH1 : 1 ≤ H)
-    (hs0 : Settled hs s) (hcur : hs[c]? = some hc) (hc1 : 1 ≤ hc) (hc63 : c < 2 ^ 63) :
-    ∃ s' cs, draw ⟨true, st⟩ cfg hs (ensureScroll { s with cursor := c }) W H = .ok (s', cs) ∧
-      ∃ ch ∈ cs, ch.idx = c ∧ ch.height = hc ∧ Visible H ch := by
-  obtain ⟨hp, ho, ht, hht, hle⟩ := hs0
-  unfold ensureScroll
-  simp only []
-  split
-  · rename_i hgt
-    exact draw_cursor_visible st cfg hs _ W H hc hgap hW hH hH1 hp ho (Nat.le_of_lt hgt) hcur hc1 hc63
-      (fun h => by simp only [] at h; omega) (fun _ => ⟨rfl, ht, hht, hle⟩)
-  · rename_i hle'
-    exact draw_cursor_visible st cfg hs _ W H hc hgap hW hH hH1 hp (Int.le_refl 0) (Nat.le_refl _) hcur hc1 hc63
-      (fun _ => rfl) (fun h => by simp only [] at h; omega)
 
 end VaxisModel.Lemmas.DynList
